@@ -92,9 +92,15 @@ def build(tier, seed):
     near = [w for w in pw if 0.2 in w and max(abs(v) for v in w) == 2]
     for lvl in (NEAR_LO, NEAR_HI):
         cases += [['p', [lvl if v == 0.2 else v for v in w], 0] for w in near]
+    # long zigzag records with more than a thousand turning points, several of them one after the other in ONE pool case (what the
+    # functions keep between calls must not depend on the sizes seen before)
+    cases.append(['L', list(LONG_PEAK_COUNTS), 0])
+    cases.append(['L', list(LONG_PEAK_COUNTS[::-1]), 0])
+    # the caller's array edited IN PLACE between two calls of the power-law functions (same object, other content)
+    cases += [['R', w, 0] for w in pw if len(w) <= 4 and TINY not in w]
     return {
         'cases': cases,
-        'rule': "'d': all non-constant words over {0..3} of length 2..%d and over the wide-range alphabet %s of length 2..%d "
+        'rule': "'L': zigzag records with 513 .. 5001 turning points, several in one pool case in two orders; 'R': power-law functions on one array object before and after it was edited in place (x -= c, x[...] = reversed); 'd': all non-constant words over {0..3} of length 2..%d and over the wide-range alphabet %s of length 2..%d "
                 "x {float64, int64, list} x offsets {0,+5,-2.5} + the float record scaled by %g "
                 "x {delta series, pseudo-cyclic series}; 'p': all non-constant words over {-3..3} of length 2..%d, over {-3..3}+{0.2} of length 2..%d "
                 "and over {-3..3}+{0.2}+{%s} of length 2..%d "
@@ -126,7 +132,7 @@ def build(tier, seed):
                                                                                     '(1,) ndarray', '(2,) ndarray'],
                    'n_cyc_int': N_INT, 'b_min': B_MIN, 'near_cutoff_levels': [NEAR_LO, NEAR_HI],
                    'call_sequences': ['A, A, B, A with the earlier results overwritten in place (all six functions)']},
-        'required_classes': ['delta:float', 'delta:int', 'delta:list', 'delta:offset', 'delta:tiny-scale', 'plateau', 'monotone',
+        'required_classes': ['long-zigzag', 'array-edited-in-place-between-calls', 'delta:float', 'delta:int', 'delta:list', 'delta:offset', 'delta:tiny-scale', 'plateau', 'monotone',
                              'interior-turning', 'last-move-up', 'last-move-down', 'first-move-down',
                              'small-step-far-from-start',
                              'inverse-checked', 'inverse-interior-index', 'sub-cutoff-peak', 'cutoff-exact-tie',
@@ -915,10 +921,91 @@ def run_power_ext(r, w, x, exc, amax, is_int, n_cache, a_cache):
                                                                   'length and end samples'))
 
 
+LONG_PEAK_COUNTS = (1025, 2100, 513, 5001, 4096, 2601, 1023, 3333)
+
+
+def zigzag(p, variant):
+    """p+1 samples, every interior sample a turning point; amplitudes vary (small integers: all sums exact in floating point)"""
+    out = [0.0]
+    for i in range(1, p + 1):
+        amp = 1 + (i * 7 + variant) % 5
+        out.append(float(amp if i % 2 else -amp + (variant % 2)))
+    if variant >= 2:
+        out.append(out[-1])          # ends on a plateau
+    return out
+
+
+def run_long(r, counts):
+    for variant in (0, 1, 2):
+        for p in counts:
+            w = zigzag(p, variant)
+            n = len(w)
+            tv, net, last, first = exact_identities(w)
+            allowed = set(range(n))
+            r.states += 1
+            r.nontrivial += 1
+            r.cls('long-zigzag')
+            x = np.array(w, dtype=float)
+            snap = x.tobytes()
+            for name, fn in (('delta', pc.determine_peaks_only_delta_series), ('cyclic', pc.determine_pseudo_cyclic_peak_only_series)):
+                sub = {'zigzag_turning_points': p, 'variant': variant, 'sequence': list(counts)}
+                ok, out = r.call(name, sub, fn, x)
+                if ok:
+                    check_delta_result(r, name, sub, out, n, allowed, tv, net, last)
+                if x.tobytes() != snap:
+                    r.fail(name + '.input-unchanged', sub, 'the record was modified')
+                    x = np.array(w, dtype=float)
+
+
+def run_refill(r, w):
+    """One float64 array object handed to the four power-law functions, edited in place by the caller, handed over again: the answer
+    is the one for the content (compared with the same call on a private copy made after the edit)."""
+    x = np.array(w, dtype=float)
+    r.nontrivial += 1
+    edits = (('x -= 1.5', lambda a: a.__isub__(1.5)), ('x[...] = x[::-1]', lambda a: a.__setitem__(Ellipsis, a[::-1].copy())),
+             ('x *= -0.5', lambda a: a.__imul__(-0.5)), ('x += 2.25', lambda a: a.__iadd__(2.25)))
+    fns = (('cycles', lambda a: im.calc_n_cyc_array_w_power_law(a, 2.0, 0.34, cut_off=0.0)),
+           ('amplitude', lambda a: im.calc_cyc_amp_array_w_power_law(a, NCYC, 0.34)),
+           ('gm', lambda a: im.calc_cyc_amp_gm_arrays_w_power_law(a, a, NCYC, 0.34)),
+           ('combined', lambda a: im.calc_cyc_amp_combined_arrays_w_power_law(a, a, NCYC, 0.34)))
+    for fname, fn in fns:
+        x[...] = np.array(w, dtype=float)
+        try:
+            fn(x)
+        except Exception:
+            pass
+        for ename, ed in edits:
+            ed(x)
+            if len(set(x.tolist())) < 2:
+                continue
+            sub = {'w': w, 'fn': fname, 'edited_in_place': ename, 'content_now': x.tolist()}
+            r.states += 1
+            ok, got = r.call('refill.' + fname, sub, fn, x)
+            ok2, want = r.call('refill.' + fname, dict(sub, on='private copy'), fn, x.copy())
+            if ok and ok2:
+                r.cls('array-edited-in-place-between-calls')
+                try:
+                    g = np.asarray(got, dtype=float)
+                    wv = np.asarray(want, dtype=float)
+                    same = g.shape == wv.shape and bool(np.all((g == wv) | (np.isnan(g) & np.isnan(wv))))
+                except Exception:
+                    same = False
+                r.n_cmp += 1
+                if not same:
+                    r.fail('refill.' + fname, sub, 'after the caller edited its array in place the result is not the one for the new content '
+                           '(the same call on a copy of the array gives another answer)', observed=got, expected=want)
+
+
 def run_case(case):
     r = Res()
     kind, w = case[0], list(case[1])
     ext = bool(len(case) > 2 and case[2])
+    if kind == 'L':
+        run_long(r, w)
+        return r
+    if kind == 'R':
+        run_refill(r, w)
+        return r
     if kind == 'd':
         run_delta(r, w, ext=ext)
     else:
@@ -928,6 +1015,8 @@ def run_case(case):
 
 def snippet(case, v):
     kind, w = case[0], case[1]
+    if kind in ('L', 'R'):
+        return "# see run_long / run_refill in mcheck/props/c13.py; sub = %r\n" % (v.get('sub'),)
     if kind == 'd':
         return ("import numpy as np\nfrom eqsig.fns import peaks_and_crossings as pc\n"
                 "w = %r\nsub = %r\nx = np.array(w, float) * sub.get('scale', 1) + sub.get('offset', 0)\n"
